@@ -387,6 +387,7 @@ class ExtOp(AsExtOp):
         return Custom(
             op_name=self._op_def.name,
             signature=sig,
+            description=self._op_def.description,
             extension=ext.name if ext else "",
             args=self.args,
         )
